@@ -1,4 +1,6 @@
 """C14 - results are reproducible and independent of process scheduling and of earlier calls."""
+import os
+
 import numpy as np
 
 from ticcmon import e2e
@@ -83,7 +85,10 @@ def make_input(seed, i):
     case["data"]["seg"] = 8
     case["data"]["flavor"] = "plain"
     case["biased"] = True
+    case.pop("start_method", None)     # (the start method is a configuration of its own here, not part of the input)
     case["m"] = int(rng.integers(1, 4))
+    if i % 3 == 1 and not case.get("init"):
+        case["gmm_max_iter"] = 2          # the seeding mixture runs out of EM steps (in every configuration of this input alike)
     if isinstance(case["data"]["T"], int):
         case["data"]["T"] = max(case["data"]["T"], 80)
     else:
@@ -142,6 +147,11 @@ def run_config(case, conf, res):
     if conf.get("start") and conf["mp"]:
         c["start_method"] = conf["start"]
         res.count("configurations_with_start_method_" + conf["start"])
+    if conf.get("warnings"):
+        c["warnings"] = conf["warnings"]
+        res.count("configurations_under_other_warning_filters")
+    if conf.get("in_child"):
+        return run_config_in_child(c, case, res)
     c["task_plan"] = conf.get("task_plan") or {}
     run = e2e.run_case(c)
     K = case["K"]
@@ -152,6 +162,56 @@ def run_config(case, conf, res):
     if run.exc is not None:
         return "EXC:" + type(run.exc).__name__, perms, run
     return dg.digest(run.result), perms, run
+
+
+class _Stub:
+    phases = ()
+    tasks = ()
+    exc = None
+
+
+def _child_main(conn, c, K):
+    try:
+        run = e2e.run_case(c)
+        perms = []
+        for r in range(len(run.tasks) // K):
+            perms.append(tuple(t - r * K for t in run.completions if r * K <= t < (r + 1) * K))
+        d = ("EXC:" + type(run.exc).__name__) if run.exc is not None else dg.digest(run.result)
+        repop = any(p["phase"] == "repop" and [int(x) for x in p["inp"]["labels"]] != [int(x) for x in p["out"]["labels"]] for p in run.phases)
+        conn.send((d, perms, repop))
+    except BaseException as e:       # reported to the parent as an exception digest
+        conn.send(("EXC:child:" + type(e).__name__, [], False))
+    finally:
+        conn.close()
+        os._exit(0)
+
+
+def run_config_in_child(c, case, res):
+    """The library was imported (and used) in this process; the compared call is the FIRST call made in a forked child of it, which
+    seeds the generators itself - a fork-based parameter sweep."""
+    import multiprocessing
+    ctx = multiprocessing.get_context("fork")
+    a, b = ctx.Pipe(duplex=False)
+    p = ctx.Process(target=_child_main, args=(b, c, case["K"]))
+    p.start()
+    b.close()
+    got = None
+    if a.poll(600):
+        try:
+            got = a.recv()
+        except EOFError:
+            got = None
+    p.join(10)
+    if p.is_alive():
+        p.kill()
+        p.join(5)
+    if got is None:
+        res.inconclusive.append("the forked child running configuration did not report within 600 s")
+        return "EXC:nochild", [], _Stub()
+    res.count("configurations_run_as_first_call_of_a_forked_child")
+    stub = _Stub()
+    stub.phases = [dict(phase="repop", inp=dict(labels=[0]), out=dict(labels=[1]))] if got[2] else []
+    return got[0], got[1], stub
 
 
 def cb_balance(rho, rp, tp, rd, td):
@@ -219,6 +279,19 @@ def run_shard(spec, res):
                 # the caller's program selected another start method for worker processes
                 confs[-1]["start"] = "spawn" if j == 1 else "forkserver"
                 confs[-1]["name"] += "-" + confs[-1]["start"]
+            if spec["role"] == "A" and j == 2:
+                confs[-1]["warnings"] = "ignore"           # the caller silenced warnings
+                confs[-1]["name"] += "-wignore"
+            if spec["role"] == "A" and j == 4:
+                # every task's clocks jump two hours ahead while it runs
+                confs[-1]["task_plan"] = {str(t_): dict(confs[-1]["task_plan"].get(str(t_), {}), clock_jump=7200.0) for t_ in range(25 * K)}
+                confs[-1]["name"] += "-clockjump"
+                res.count("configurations_with_jumping_clocks")
+            if spec["role"] == "B" and j == 1:
+                confs[-1]["warnings"] = "always"
+                confs[-1]["in_child"] = spec.get("mode", "interp") == "interp"    # (forking after Numba's thread pool started is unsafe)
+                confs[-1]["preceding"] = max(1, confs[-1].get("preceding", 0))   # the parent has used the library before it forks
+                confs[-1]["name"] += "-walways-child" if confs[-1]["in_child"] else "-walways"
             if spec["role"] == "B" and j == 3:
                 confs[-1]["failing_before"] = True
             if spec["role"] == "B" and j == 2:
@@ -283,6 +356,8 @@ def run_shard(spec, res):
             res.count("configurations_with_a_repopulation_draw")
         if d.startswith("EXC:"):
             res.skipped(d)
+    from ticcmon import instrument as _ins
+    res.count("mixture_fits_not_converged_in_this_process", int(_ins.COUNTERS.get("mixture_fits_not_converged", 0)))
     res.counters["digests"] = {"input%d" % i: {spec["role"]: digests}}
     res.counters["cases"] = {"input%d" % i: case}
     res.sample(dict(input=i, role=spec["role"], case=case, digests=digests))
@@ -345,6 +420,12 @@ def finalize(merged, tier):
         out["inconclusive"].append("entry-point history comparisons: %d" % merged["counters"].get("entry_point_repeat_comparisons", 0))
     if merged["counters"].get("configurations_with_start_method_spawn", 0) < 3:
         out["inconclusive"].append("fewer than 3 configurations ran their worker processes under the spawn start method")
+    if merged["counters"].get("configurations_run_as_first_call_of_a_forked_child", 0) < 3:
+        out["inconclusive"].append("fewer than 3 configurations ran as the first call of a forked child process")
+    if merged["counters"].get("configurations_under_other_warning_filters", 0) < 6:
+        out["inconclusive"].append("fewer than 6 configurations ran under warning filters other than the reference run's")
+    if merged["counters"].get("mixture_fits_not_converged_in_this_process", 0) < 3:
+        out["inconclusive"].append("fewer than 3 compared runs had a seeding mixture that ran out of EM steps")
     if merged["counters"].get("wide_pairs_compared", 0) < 1:
         out["inconclusive"].append("no pair of configurations was compared on a wide problem with the linear-algebra library multi-threaded")
     if compared < (40 if tier == "quick" else 400):
@@ -356,6 +437,8 @@ def _conf_from_name(name):
     parts = name.split("-")
     try:
         return {"name": name, "nproc": int(parts[0][2:]), "mp": parts[1] == "mp",
-                "start": parts[-1] if parts[-1] in ("spawn", "forkserver") else None}
+                "start": ([p_ for p_ in parts if p_ in ("spawn", "forkserver")] or [None])[0],
+                "warnings": "ignore" if "wignore" in parts else ("always" if "walways" in parts else None),
+                "in_child": "child" in parts}
     except Exception:
         return {"name": name, "nproc": 1, "mp": False}
